@@ -104,6 +104,11 @@ impl<CS: CLCiphersuite> Signature<CL03<CS>> {
             * &pk.c)
             % &pk.N;
 
+        // attributes live in [0, 2^lm): outside that range (m + k*e, v * a^k) would verify too
+        if message.value < 0 || message.value >= Integer::from(2).pow(CS::lm) {
+            return false;
+        }
+
         if sign.e <= Integer::from(2).pow(CS::le - 1) || sign.e >= Integer::from(2).pow(CS::le) {
             return false;
         }
@@ -137,7 +142,15 @@ impl<CS: CLCiphersuite> Signature<CL03<CS>> {
 
         rhs = (&rhs * Integer::from(pk.b.pow_mod_ref(&sign.s, &pk.N).unwrap()) * &pk.c) % &pk.N;
 
-        if sign.e <= Integer::from(2).pow(CS::le - 1) {
+        // attributes live in [0, 2^lm): outside that range (m_i + k*e, v * a_i^k) would verify too
+        if messages
+            .iter()
+            .any(|m| m.value < 0 || m.value >= Integer::from(2).pow(CS::lm))
+        {
+            return false;
+        }
+
+        if sign.e <= Integer::from(2).pow(CS::le - 1) || sign.e >= Integer::from(2).pow(CS::le) {
             return false;
         }
 
